@@ -84,6 +84,15 @@ CHECKS = {
             "common prefixes, left recursion) x all words up to length 4; sets compared exactly, the verdict with the "
             "predict-set definition, parse outcomes with membership and the documented exception.",
             "Trusted: TLC, projection. Parse outcomes compared on words up to length 4.", "DESIGN.md section 3 C14"),
+    "C15": ("TLA+ grammar generator (CFGGen) enumerated by TLC; the four parsers replayed on members and non-members; "
+            "every returned tree and both derivation listings judged by TraceParse with TreeSem (root, every inner node "
+            "a production of the recorded grammar / normal form, yield = word; leftmost/rightmost step relation), "
+            "refusals compared with the bounded language",
+            "Exhaustive within small constants incl. ambiguous grammars, epsilon productions and epsilon subtrees; each "
+            "tree is checked structurally and its derivations step by step by TLC; non-members must raise the documented "
+            "exception.",
+            "Trusted: TLC, projection of ParseTree (value, sons). Recursive descent only inside its termination domain.",
+            "DESIGN.md section 3 C15"),
 }
 
 NOT_YET = "check not built yet in this round (see DESIGN.md section 9, build order); no claim is made"
